@@ -79,6 +79,44 @@ DESC = {
  "C18-4": ("proxy WriteHeader forwards 1xx codes without latching", "WriteHeader(101) / WriteHeader(103) then 200"),
  "C19-3": ("CallerSkipFrame sets instead of accumulating", "two helper layers that each call CallerSkipFrame"),
  "C19-4": ("caller de-duplication flag not reset by newEvent (leaks through the pool)", "an Event.Caller() event finalized earlier, then a With().Caller() logger"),
+ "C01-5": ("fields.go error encoding pulled into a helper modelled on AnErr: a nil marshal result appends nothing after the key/delimiter was written", "Fields with a []error holding a nil element, or an error for which ErrorMarshalFunc returns nil"),
+ "C01-6": ("default InterfaceMarshalFunc = json.Marshal + bytes.ReplaceAll un-escaping of < > &", "an Interface/Any value whose text contains the literal characters \\u003c / \\u003e / \\u0026"),
+ "C02-5": ("hand-rolled RFC3339 fast path takes the zone sign from the hour part", "a time whose zone offset is between -1h and 0 (e.g. -00:30) under the default TimeFieldFormat"),
+ "C02-6": ("pooled Array emptied on release instead of on acquire; the filtered-event path returns it un-emptied", "a level-filtered event carrying a non-empty Arr(), then an enabled Array/Errs"),
+ "C03-5": ("Context.Caller()/CallerWithSkipFrameCount replace an inherited caller hook instead of adding one", "a derivation chain configuring the caller twice with another hook in between"),
+ "C03-6": ("Logger.WithLevel collapsed to newEvent(level, nil): the Disabled case is lost", "WithLevel(Disabled) with a hook that has a side effect"),
+ "C04-5": ("a filtered Panic()/Fatal() returns a live Disabled-level event carrying done instead of firing done at once", "a filtered Panic/Fatal event with a marshaler / MsgFunc argument, or one that never reaches Msg"),
+ "C04-6": ("ParseLevel bounds check tidied to +-math.MaxInt8", "the text -128"),
+ "C05-5": ("Context.Reset() truncates the context buffer in place", "a sibling sharing the parent's array (Level/Hook/Sample), then parent.UpdateContext(c.Reset()...)"),
+ "C05-6": ("UpdateContext returns early for any logger at level Disabled", "a Disabled With()-logger updated and then re-enabled by a child Level(Info)"),
+ "C06-5": ("pooled events created outside a Logger keep the stack flag of their previous user", "ErrorStackMarshaler set, a Stack() event, then Dict().Err(...) without Stack()"),
+ "C06-6": ("Event.Discard() returns the event to the pool, write() returns early for disabled events", "a discarding hook while another goroutine draws the same pooled event"),
+ "C07-5": ("an Event/Array grown past 64 KiB goes back to the pool with buf = nil", "one >64 KiB event, re-warming, then a medium-sized line"),
+ "C07-6": ("enc declared with the encoder interface type: every encode call dynamic, slice arguments escape", "stack-resident slice arguments built at the call site"),
+ "C08-5": ("CBOR AppendString sanitises with strings.ToValidUTF8 (one U+FFFD per run of bad bytes)", "a string with two or more consecutive ill-formed bytes"),
+ "C08-6": ("CBOR AppendInterface fast path encodes scalars natively", "Interface/Any with a NaN or +-Inf float"),
+ "C09-5": ("appendTag helper: AppendInterface writes tag 262 before checking the marshal error", "an unmarshalable value (chan, func) through Interface/Fields"),
+ "C09-6": ("appendFieldList gets a case nil arm after the key was written", "a custom ErrorMarshalFunc returning nil for an error value in Fields()"),
+ "C10-5": ("poll() batches every queued message into one Write on the wrapped writer", "a backlog of two or more messages behind a slow writer"),
+ "C10-6": ("Poller gets its own Set waking a sleeping Next through an unbuffered channel with a racy flag", "poller mode, idle consumer, slow or stuck wrapped writer"),
+ "C11-5": ("Alerter rate-limited to once per second; the final flush runs on a value copy of Writer", "two overruns less than a second apart, then Close"),
+ "C11-6": ("poll() stops when the wrapped writer returns a 'closed' error", "a sink failing one write with os.ErrClosed/EPIPE and then recovering"),
+ "C12-5": ("consumer goroutine started lazily by the first Write", "Close after zero Writes"),
+ "C12-6": ("Alerter wrapped: drop counts at most once per second, flush at Close", "a second overflow less than 1 s after a reported one, then quiet"),
+ "C13-5": ("BurstSampler stores the window start (now-startAt >= Period)", "a first event whose clock reading is within one Period of the zero clock"),
+ "C13-6": ("Logger.Write pre-checks should(NoLevel): two sampler slots per event", "an event arriving through Logger.Write (stdlib log bridge) on a sampled logger"),
+ "C14-5": ("MultiLevelWriter caches the lowest filter level at construction", "every destination filtered, then a filter's Level lowered at run time"),
+ "C14-6": ("Write/WriteLevel share an 'each' helper that keeps the LAST error", "two failing destinations with distinguishable failures"),
+ "C15-5": ("held level byte stored with the high bit set, masked off again: negative levels lose their sign", "a negative-level line held before the trigger"),
+ "C15-6": ("trigger() returns early when nothing is held, before setting triggered", "a trigger while the buffer is empty, then a low line"),
+ "C16-5": ("PartsExclude filtering overwrites the caller's PartsOrder slice in place", "caller-owned PartsOrder + PartsExclude + two Writes"),
+ "C16-6": ("numeric timestamps no longer converted with .In(TimeLocation)", "numeric TimeFieldFormat with a TimeLocation differing from the local zone"),
+ "C17-5": ("decodeIntAdditionalType reads argument bytes with one bufio Read (short read at a refill unnoticed)", "a multi-byte argument lying across a 4096-byte boundary"),
+ "C17-6": ("tag-261 range check panics with a string value: the recover's r.(error) assertion panics", "a tag-261 item with a prefix length out of range"),
+ "C18-5": ("Logger.With() skips the private copy when the parent context is >= 500 bytes", "a NewHandler base logger with a large context and two overlapping requests"),
+ "C18-6": ("proxy ReadFrom no longer records the implicit 200; Status() guesses 200", "ReadFrom as first output, then WriteHeader(c != 200)"),
+ "C19-5": ("Logger.Hook appends to the parent's hook slice in place", "parent with three hooks, a With().Caller() child, then a later sibling with a caller/other hook"),
+ "C19-6": ("Event.msg handles done in a separate branch that re-enters e.msg (one more frame)", "Fatal()/Panic() on a logger using With().Caller()"),
 }
 rows = []
 for sid in sorted(os.listdir(os.path.join(V, "seeded"))):
